@@ -53,6 +53,18 @@ def num_of(t):
 class Dyn(Calls):
     # ------------------------------------------------------------------ boxing
     def box(self, v):
+        if isinstance(v, (VClass, VBuiltin)):
+            # a class / builtin used as a value (np.int8, dict, ...): one constant per name; distinct names are distinct objects
+            t = z3.Const("pyobj_" + v.name.replace(".", "_"), ObjSort)
+            names = self.st.ghost.setdefault("$pyobjs", {})
+            if v.name not in names:
+                for other in names.values():
+                    self.assume(other != t)
+                self.assume(t != PyNone)
+                names = dict(names)
+                names[v.name] = t
+                self.st.ghost["$pyobjs"] = names
+            return t
         if isinstance(v, VTuple):
             if not v.items:
                 t = z3.Const("py_empty_tuple", ObjSort)
@@ -87,7 +99,32 @@ class Dyn(Calls):
         boxed = dict(boxed)
         boxed[o.get_id()] = (o, loc)
         self.st.ghost["$boxed"] = boxed
+        # the object's mapping / sequence view IS the container's content (as of now: a container is not mutated after it has been
+        # stored as an object value in the verified code; set_cont refuses it)
+        if not self.bound_ids and self.collector is None:
+            if isinstance(c, DictV) and c.ty.k is TStr and isinstance(c.ty.v, TObj):
+                has, val = self.dict_has_uf()
+                bs = z3.Function("box_str", z3.StringSort(), ObjSort)
+                h, w = c.has, c.val
+                self.add_universal([TStr], lambda k: z3.And(has(o, bs(k)) == h[k], z3.Implies(h[k], val(o, bs(k)) == w[k])), "boxed-dict-view")
+                self.st.ghost["$frozen"] = set(self.st.ghost.get("$frozen", set())) | {loc}
+            elif isinstance(c, SetV) and isinstance(c.ty.e, TObj):
+                has = self.dict_has_uf()[0]
+                mem = c.mem
+                self.add_universal([TObj()], lambda x: has(o, x) == mem[x], "boxed-set-view")
+                self.st.ghost["$frozen"] = set(self.st.ghost.get("$frozen", set())) | {loc}
+            elif isinstance(c, ListV) and isinstance(c.ty.e, TObj):
+                ln, item = self.seq_ufs()
+                arr, n_ = c.arr, c.n
+                self.assume(ln(o) == n_)
+                self.add_universal([TInt], lambda i: z3.Implies(z3.And(0 <= i, i < n_), item(o, i) == arr[i]), "boxed-list-view")
+                self.st.ghost["$frozen"] = set(self.st.ghost.get("$frozen", set())) | {loc}
         return o
+
+    def set_cont(self, v, c):
+        if self.loc(v) in self.st.ghost.get("$frozen", ()):
+            raise Unsupported("mutation of a container after it was stored as an object value")
+        return super().set_cont(v, c)
 
     def box_ent(self, v):
         boxed = self.st.ghost.setdefault("$boxed_ents", {})
@@ -183,15 +220,30 @@ class Dyn(Calls):
     # ------------------------------------------------------------------ equality / truth / isinstance on objects
     def bi_type(self, args, kwargs, node):
         v = args[0]
+        if isinstance(v, VCont):
+            c = self.cont(v)
+            kind = c.kind if isinstance(c, EmptyV) else {"DictV": "dict", "ListV": "list", "SetV": "set"}.get(type(c).__name__)
+            if kind in ("dict", "list", "set"):
+                return VBuiltin(kind)
+        if isinstance(v, VStr):
+            return VBuiltin("str")
         if isinstance(v, VObj):
-            return VObj(z3.Function("attr___class__", ObjSort, ObjSort)(v.t), "type")
+            t = z3.Function("attr___class__", ObjSort, ObjSort)(v.t)
+            # exact builtin types of dynamically typed values (subclasses of dict / list / str ... are outside the model)
+            self.dyn_facts(v.t)
+            for nm, k in (("dict", 5), ("list", 6), ("str", K_STR), ("bool", K_BOOL), ("float", K_REAL)):
+                self.assume((t == self.box(VBuiltin(nm))) == (kind_of(v.t) == k))
+            return VObj(t, "type")
         if isinstance(v, VExc) and not v.exact:
             return VTypeOf(v)
         return super().bi_type(args, kwargs, node)
 
     def equal(self, a, b, identity=False):
-        if isinstance(a, VClass) and isinstance(b, VClass):
+        if isinstance(a, (VClass, VBuiltin)) and isinstance(b, (VClass, VBuiltin)):
             return z3.BoolVal(a.name == b.name)
+        if isinstance(a, (VClass, VBuiltin)) and isinstance(b, VObj) or isinstance(b, (VClass, VBuiltin)) and isinstance(a, VObj):
+            a = VObj(self.box(a)) if not isinstance(a, VObj) else a
+            b = VObj(self.box(b)) if not isinstance(b, VObj) else b
         if isinstance(a, VTypeOf) or isinstance(b, VTypeOf):
             t, c = (a, b) if isinstance(a, VTypeOf) else (b, a)
             if not isinstance(c, VClass):
@@ -225,6 +277,8 @@ class Dyn(Calls):
         self.assume(z3.And(
             z3.Implies(x == y, eq(x, y)),
             z3.Implies(z3.And(kx == K_STR, ky == K_STR), eq(x, y) == (us(x) == us(y))),
+            # only a string equals a string (no class with an exotic __eq__ claiming equality with str is in the value domain)
+            z3.Implies(z3.And(kx == K_STR, eq(x, y)), ky == K_STR), z3.Implies(z3.And(ky == K_STR, eq(x, y)), kx == K_STR),
             z3.Implies(z3.And(isnum(kx), isnum(ky)), eq(x, y) == (num_of(x) == num_of(y))),
             z3.Implies(z3.And(kx == K_STR, z3.Or(isnum(ky), y == PyNone)), z3.Not(eq(x, y))),
             z3.Implies(z3.And(ky == K_STR, z3.Or(isnum(kx), x == PyNone)), z3.Not(eq(x, y))),
@@ -279,6 +333,14 @@ class Dyn(Calls):
         return super().ev_Call(n)
 
     def get_attr(self, base, name, node=None):
+        if isinstance(base, VObj) and name in getattr(self.reg, "touch_attrs", ()) and name in self.reg.attrs and not self.bound_ids:
+            r = super().get_attr(base, name, node)
+            if isinstance(r, VObj):
+                self.touch(TObj(), r.t)
+            return r
+        if isinstance(base, VObj) and (base.cls or "").startswith("enum:") and name == "name":
+            self.enum_name_axioms(base.cls[5:].replace("nn:", ""))
+            return VStr(z3.Function("enum_name", ObjSort, z3.StringSort())(base.t))
         if isinstance(base, VMatch):
             return VMethod(base, name)
         if isinstance(base, VSuper):
@@ -295,6 +357,14 @@ class Dyn(Calls):
                 hit = boxed.get(z3.simplify(base.t).get_id())
                 if hit is not None:
                     return super().get_attr(VCont(hit[1]), name, node)
+        if isinstance(base, VObj) and name not in self.reg.attrs and name not in self.reg.obj_methods and name not in self.reg.obj_method_hooks \
+                and not (base.cls and "%s.%s" % (base.cls, name) in self.reg.obj_methods) and base.cls not in self.reg.opaque_classes and not name.startswith("__"):
+            # an attribute the contracts do not declare (new code): a total uninterpreted function of the object; reading it is assumed
+            # not to raise AttributeError, calling it is an opaque call (arbitrary result or exception)
+            if not self.spec_mode and not self.branch(base.t != PyNone):
+                raise PyRaise(VExc("AttributeError", []))
+            self.notes.append("undeclared attribute %s of an opaque object is modelled as an uninterpreted function" % name)
+            return VObj(z3.Function("attr_" + name, ObjSort, ObjSort)(base.t))
         return super().get_attr(base, name, node)
 
     def call_method(self, recv, name, args, kwargs, node):
@@ -341,6 +411,9 @@ class Dyn(Calls):
         return box
 
     def ev_DictComp(self, n):
+        return self.with_pure_raises(lambda: self._ev_DictComp(n))
+
+    def _ev_DictComp(self, n):
         """{K: V for (k, v) in d.items()} / {K: V for v in d.values()} / {K: V for k in d}: the result is characterised by
         forward membership (every source entry contributes its key) and a ghost inverse (every result key comes from a
         source entry, whose value expression it carries)."""
@@ -354,6 +427,14 @@ class Dyn(Calls):
             mode = it.func.attr
             srcnode = it.func.value
         src = self.ev(srcnode)
+        if isinstance(src, VObj):
+            hit = (self.st.ghost.get("$boxed") or {}).get(z3.simplify(src.t).get_id())
+            if hit is not None:
+                src = VCont(hit[1])
+            else:
+                if not self.spec_mode and not self.branch(src.t != PyNone):
+                    raise PyRaise(VExc("AttributeError", []))
+                src = self.obj_as_dict(src)
         if not isinstance(src, VCont):
             raise Unsupported("dict comprehension over %r" % (src,))
         d = self.cont(src)
@@ -470,12 +551,22 @@ class Dyn(Calls):
         return z3.Function("dict_has", ObjSort, ObjSort, z3.BoolSort()), z3.Function("dict_val", ObjSort, ObjSort, ObjSort)
 
     def contains(self, c, x):
+        if self.spec_mode and not self.pure_code:
+            try:
+                return self._contains(c, x)
+            except (Unsupported, AttributeError, z3.Z3Exception):
+                return self.fresh("undef_in", z3.BoolSort())    # specifications are total: ill-typed sub-terms are arbitrary
+        return self._contains(c, x)
+
+    def _contains(self, c, x):
         if isinstance(c, VObj):
             hit = (self.st.ghost.get("$boxed") or {}).get(z3.simplify(c.t).get_id())
             if hit is not None:
                 return super().contains(VCont(hit[1]), x)
             has, _ = self.dict_has_uf()
             return has(c.t, self.box(x))
+        if c is VNone and self.spec_mode:
+            return z3.BoolVal(False)
         return super().contains(c, x)
 
     _pre_base = None
@@ -488,13 +579,40 @@ class Dyn(Calls):
         return super().ev(n)
 
     def ev_Subscript(self, n):
+        if self.spec_mode and not self.pure_code:
+            try:
+                return self._ev_Subscript(n)
+            except (Unsupported, AttributeError, z3.Z3Exception):
+                return VObj(self.fresh("undef_item", ObjSort))   # specifications are total
+        return self._ev_Subscript(n)
+
+    def _ev_Subscript(self, n):
         if isinstance(n.slice, ast.Slice):
             return super().ev_Subscript(n)
         base = self.ev(n.value)
+        if base is VNone and self.spec_mode:
+            return VObj(self.fresh("undef_item", ObjSort))
+        if isinstance(base, VClass) and base.name in self.reg.enums:
+            k = self.ev(n.slice)
+            if isinstance(k, VObj) and not self.spec_mode:
+                self.dyn_facts(k.t)
+                if not self.branch(kind_of(k.t) == K_STR):
+                    raise PyRaise(VExc("KeyError", [k]))   # Enum[non-string]
+            kt = k.t if isinstance(k, VStr) else self.to_term(k, TStr)
+            self.enum_name_axioms(base.name)
+            members = self.reg.enums[base.name]
+            if not self.spec_mode and not self.branch(z3.Or(*[kt == z3.StringVal(m) for m in members])):
+                raise PyRaise(VExc("KeyError", [k]))
+            return VObj(z3.Function("enum_by_name_" + base.name, z3.StringSort(), ObjSort)(kt), "enum:" + base.name)
         if isinstance(base, VObj):
             hit = (self.st.ghost.get("$boxed") or {}).get(z3.simplify(base.t).get_id())
             if hit is None:
                 k = self.ev(n.slice)
+                if isinstance(k, VInt):
+                    ln, item = self.seq_ufs()
+                    if not self.spec_mode and not self.branch(z3.And(0 <= k.t, k.t < ln(base.t))):
+                        raise PyRaise(VExc("IndexError", []))
+                    return VObj(item(base.t, k.t))
                 has, val = self.dict_has_uf()
                 kt = self.box(k)
                 if not self.spec_mode and not self.branch(has(base.t, kt)):
@@ -575,7 +693,34 @@ class Dyn(Calls):
         return self.new_box(ListV(c.ty, arr2, c.n))
 
     # ------------------------------------------------------------------ class-level mutable state (e.g. MementoFunction._global_fn_generation)
+    def enum_name_axioms(self, cname):
+        key = "enumnames:" + cname
+        if key in self.enum_done or self.collector is not None:
+            return
+        self.enum_done.add(key)
+        nm = z3.Function("enum_name", ObjSort, z3.StringSort())
+        by = z3.Function("enum_by_name_" + cname, z3.StringSort(), ObjSort)
+        for m in self.reg.enums[cname]:
+            c = self.enum_member(cname, m).t
+            self.assume(z3.And(nm(c) == z3.StringVal(m), by(z3.StringVal(m)) == c))
+
     def class_member(self, base, name):
+        if base.name in self.reg.enums and name == "__getitem__":
+            raise Unsupported("enum __getitem__")
+        if not getattr(self.reg, "class_state", {}).get((base.name.split(".")[-1], name)) and base.module and base.name not in self.reg.enums:
+            r = self.src.resolve_class(base.module, base.name.split(".")[0])
+            node = self.src.module(r[0]).classes.get(base.name) if r else None
+            for st_ in (node.body if node is not None else []):
+                if isinstance(st_, (ast.Assign, ast.AnnAssign)):
+                    tgt = st_.targets[0] if isinstance(st_, ast.Assign) else st_.target
+                    val = st_.value
+                    if isinstance(tgt, ast.Name) and tgt.id == name and val is not None and (
+                            (isinstance(val, ast.Dict) and not val.keys) or (isinstance(val, ast.Call) and isinstance(val.func, ast.Name) and val.func.id == "dict" and not val.args)):
+                        # a class-level dict: mutable state shared by every call so far -- its content at entry is arbitrary
+                        g = "$clsdict:%s.%s" % (base.name, name)
+                        if g not in self.st.ghost:
+                            self.st.ghost[g] = self.sym(TDict(TObj(), TObj()), "clsdict_%s_%s" % (base.name.replace(".", "_"), name), record_input=True)
+                        return self.st.ghost[g]
         cs = getattr(self.reg, "class_state", {}).get((base.name.split(".")[-1], name))
         if cs is not None:
             if cs not in self.st.ghost:
@@ -665,6 +810,14 @@ class Dyn(Calls):
         return self.new_box(SetV(TSet(ety), mem2, cnt))
 
     def comprehension(self, n, kind):
+        if len(n.generators) == 1 and not self.spec_mode:
+            it0 = self.ev(n.generators[0].iter)
+            if isinstance(it0, VObj) and (self.st.ghost.get("$boxed") or {}).get(z3.simplify(it0.t).get_id()) is None:
+                if not self.branch(it0.t != PyNone):
+                    raise PyRaise(VExc("TypeError", [VStr("'NoneType' object is not iterable")]))
+                self._pre_base = (n.generators[0].iter, self.obj_as_list(it0))
+            else:
+                self._pre_base = (n.generators[0].iter, it0)
         if kind == "set" and len(n.generators) == 1 and not n.generators[0].is_async and isinstance(n.generators[0].target, ast.Name):
             g = n.generators[0]
             it = self.ev(g.iter)
@@ -732,8 +885,15 @@ class Dyn(Calls):
             feas, groups = enc.feasible(w, s.t, "rx")
             matched = self.fresh("rx_matched", z3.BoolSort())
             self.assume(z3.Implies(matched, feas))
+            # whether a match exists does not depend on priorities: s has a prefix (all of s, with `$`) in the pattern's regular language
+            lang = RX.language(enc.nodes)
+            if not any(isinstance(x, RX.End) for x in enc.nodes):
+                lang = z3.Concat(lang, z3.Full(z3.ReSort(z3.StringSort())))
+            self.assume(matched == z3.InRe(s.t, lang))
             c = self.reg.contracts.get(self.frame.fi.fid) if self.frame and self.frame.fi else None
             for hint in (c.labels.get("regex_hints", []) if c else []):
+                if not hint:
+                    continue
                 hg, optlits = {}, []
                 for key, expr in hint.items():
                     if key == "optional_literals":
@@ -778,7 +938,26 @@ class Dyn(Calls):
         return VInt(z3.IndexOf(recv.t, args[0].t, start))
 
     def m_str_rfind(self, recv, args, kwargs):
-        return VInt(z3.LastIndexOf(recv.t, args[0].t))
+        """s.rfind(sub): -1 when sub does not occur, else the start of an occurrence after which no further occurrence starts
+        (axiomatised: string solvers handle this form far better than seq.last_indexof)."""
+        sub = args[0].t
+        r = self.fresh("rfind", z3.IntSort())
+        sv = recv.t
+        n, m = z3.Length(sv), z3.Length(sub)
+        self.assume(z3.Or(z3.And(r == -1, z3.Not(z3.Contains(sv, sub))),
+                          z3.And(r >= 0, r + m <= n, z3.SubString(sv, r, m) == sub, z3.Not(z3.Contains(z3.SubString(sv, r + 1, n - r - 1), sub)))))
+        return VInt(r)
+
+    def m_str_replace(self, recv, args, kwargs):
+        """s.replace(a, b): modelled with the first-occurrence replacement; exact when a occurs at most once (obligation below)."""
+        a_, b_ = args[0].t, args[1].t
+        sv = recv.t
+        i = z3.IndexOf(sv, a_, 0)
+        once = z3.Or(i < 0, z3.Not(z3.Contains(z3.SubString(sv, i + 1, z3.Length(sv)), a_)))
+        if not self.spec_mode:
+            self.oblige("replace-pattern-occurs-at-most-once", once, kind="safety", info={"clause": "str.replace is modelled for at most one occurrence of the pattern"})
+            self.assume(once)
+        return VStr(z3.Replace(sv, a_, b_))
 
     def sp_full_match(self, n):
         """full_match(s, 'regex'): s is in the regular language of the pattern (supported regex subset)."""
@@ -806,6 +985,15 @@ class Dyn(Calls):
         raise Unsupported("tuple(x)")
 
     def bi_len(self, args, kwargs, node):
+        if args and args[0] is VNone and self.spec_mode:
+            return VInt(self.fresh("undef_len", z3.IntSort()))
+        if args and isinstance(args[0], VObj):
+            hit = (self.st.ghost.get("$boxed") or {}).get(z3.simplify(args[0].t).get_id())
+            if hit is not None:
+                return super().bi_len([VCont(hit[1])], kwargs, node)
+            n = self.seq_ufs()[0](args[0].t)
+            self.assume(n >= 0)
+            return VInt(n)
         if args and isinstance(args[0], VOpt) and self.spec_mode:
             return super().bi_len([args[0].val], kwargs, node)
         return super().bi_len(args, kwargs, node)
@@ -838,3 +1026,132 @@ class Dyn(Calls):
                 raise PyRaise(VExc("AttributeError", []))
             return VObj(z3.Function("getattr_", ObjSort, ObjSort, ObjSort)(o.t, key))
         raise Unsupported("getattr on %r" % (o,))
+
+    # ------------------------------------------------------------------ opaque objects used as sequences / mappings (wire-format documents)
+    def seq_ufs(self):
+        return z3.Function("seq_len", ObjSort, z3.IntSort()), z3.Function("seq_item", ObjSort, z3.IntSort(), ObjSort)
+
+    def obj_as_list(self, v):
+        """An opaque object iterated as a sequence: a list view whose length and items are functions of the object."""
+        ln, item = self.seq_ufs()
+        key = ("$seqview", z3.simplify(v.t).get_id())
+        views = self.st.ghost.setdefault("$seqviews", {})
+        if key in views and not self.bound_ids:
+            return views[key]
+        arr = self.fresh("seqarr", z3.ArraySort(z3.IntSort(), ObjSort))
+        n = ln(v.t)
+        self.assume(n >= 0)
+        if self.bound_ids or self.collector is not None:
+            raise Unsupported("iteration over an object that depends on a quantified variable")
+        t = v.t
+        self.add_universal([TInt], lambda i: arr[i] == item(t, i), "sequence-view")
+        # iterating a collection yields exactly its members (for mappings: its keys): membership and the sequence view agree
+        has = self.dict_has_uf()[0]
+        idx = z3.Function("seq_index", ObjSort, ObjSort, z3.IntSort())
+        def yields(i):
+            self.touch(TObj(), item(t, i))
+            return z3.Implies(z3.And(0 <= i, i < n), has(t, item(t, i)))
+
+        def yielded(x):
+            self.touch(TInt, idx(t, x))
+            return z3.Implies(has(t, x), z3.And(0 <= idx(t, x), idx(t, x) < n, item(t, idx(t, x)) == x))
+        self.add_universal([TInt], yields, "iteration-yields-members")
+        self.add_universal([TObj()], yielded, "members-are-yielded")
+        box = self.new_box(ListV(TList(TObj()), arr, n))
+        views = dict(views)
+        views[key] = box
+        self.st.ghost["$seqviews"] = views
+        return box
+
+    def obj_as_dict(self, v):
+        has, val = self.dict_has_uf()
+        bs = z3.Function("box_str", z3.StringSort(), ObjSort)
+        h = self.fresh("mapviewhas", z3.ArraySort(z3.StringSort(), z3.BoolSort()))
+        w = self.fresh("mapviewval", z3.ArraySort(z3.StringSort(), ObjSort))
+        t = v.t
+        if self.bound_ids or self.collector is not None:
+            raise Unsupported("iteration over an object that depends on a quantified variable")
+        self.add_universal([TStr], lambda k: z3.And(h[k] == has(t, bs(k)), w[k] == val(t, bs(k))), "mapping-view")
+        cnt = self.fresh("mapviewcount", z3.IntSort())
+        self.assume(cnt >= 0)
+        return self.new_box(DictV(TDict(TStr, TObj()), h, w, cnt, {}, {}))
+
+    # ------------------------------------------------------------------ contract-bearing callees inside comprehensions
+    _pure_raises = None
+
+    def call_function(self, fi, args, kwargs, node=None):
+        c = self.reg.contracts.get(fi.fid)
+        if self.spec_mode and self.pure_code and c is not None and not c.pure and fi.fid not in self.reg.func_hooks:
+            return self.functional_summary(fi, c, args, kwargs)
+        return super().call_function(fi, args, kwargs, node)
+
+    def functional_summary(self, fi, c, args, kwargs):
+        """A callee with a contract, called on every element of a comprehension: its result is a function of its arguments
+        (ret_<callee>(args)) about which the callee's postconditions are assumed; its exceptions are raised by the comprehension
+        as a whole (recorded here, branched on by the caller).  Callees that modify state are not supported in this position."""
+        if any(not m.startswith("ghost:") for m in c.modifies):
+            raise Unsupported("call of %s in a specification: the callee modifies state (needs a loop invariant)" % fi.fid)
+        binding = self.bind_params(fi, args, kwargs)
+        for p_, ty in c.types.items():
+            if p_ in binding and p_ != "return":
+                binding[p_] = self.coerce(binding[p_], ty)
+        names = [p_ for p_ in binding if not isinstance(binding[p_], (VClass,))]
+        terms = []
+        for p_ in names:
+            terms.append(self.box(binding[p_]))
+        f = z3.Function("ret_" + fi.fid.replace(":", "_").replace(".", "_"), *([ObjSort] * len(terms) + [ObjSort]))
+        r = f(*terms) if terms else f()
+        rty = c.returns
+        if rty is None:
+            res = VNone
+        elif isinstance(rty, (TDict, TList, TSet, TObj)):
+            res = VObj(r)
+            if isinstance(rty, (TDict, TList, TSet)) or (isinstance(rty, TObj) and (rty.cls or "").startswith("nn:")):
+                self.assume(r != PyNone)
+        else:
+            res = self.from_term(self.unbox(VObj(r), rty) if rty in (TStr, TInt, TBool, TReal) else r, rty)
+        env2 = dict(binding)
+        env2["ret"] = res
+        if "result" not in binding:
+            env2["result"] = res
+        pre = self.st.snapshot()
+        for cl in c.ensures:
+            try:
+                self.assume_clause(cl, spec_env=env2, old=pre, env={})
+            except Unsupported as e:
+                if "nested universal" not in str(e):
+                    raise
+                # a quantified postcondition cannot be instantiated per element here; it is simply not used (assuming less is sound)
+        if self._pure_raises is not None:
+            self._pure_raises.update(list(c.raises) + list(c.when_raises))
+        return res
+
+    def with_pure_raises(self, build):
+        """Run a comprehension builder; afterwards, if a callee used inside may raise, the whole comprehension may raise it."""
+        saved = self._pure_raises
+        self._pure_raises = set()
+        try:
+            out = build()
+            raises = sorted(self._pure_raises)
+        finally:
+            self._pure_raises = saved
+        if raises and not self.spec_mode:
+            i = self.choose([z3.BoolVal(True)] * (len(raises) + 1))
+            if i > 0:
+                e = raises[i - 1]
+                raise PyRaise(VExc(e.rstrip("+"), [], exact=not e.endswith("+")))
+        return out
+
+    def ev_ListComp(self, n):
+        return self.with_pure_raises(lambda: super(Dyn, self).ev_ListComp(n))
+
+    def ev_GeneratorExp(self, n):
+        return self.with_pure_raises(lambda: super(Dyn, self).ev_GeneratorExp(n))
+
+    def ev_SetComp(self, n):
+        return self.with_pure_raises(lambda: super(Dyn, self).ev_SetComp(n))
+
+
+def split_tag_effect(text):
+    t = text.lstrip()
+    return t.startswith("[") and "effect" in t[: t.index("]")]
